@@ -49,6 +49,26 @@ def run_one(ck, prog):
         if single:
             cond_maps.append(bb)
     ck.ob("C18.1", "setup|cq-mapping-conditional-on-single-mmap", len(cond_maps) == 1, fn=su["path"], detail=f"mappings made under the SINGLE_MMAP feature test: {len(cond_maps)} (expected exactly the completion ring)")
+    # the slot -> entry index array is initialised for every slot of the ring the kernel actually created (it rounds the
+    # requested size up): the loop storing into sq_array runs over 0..*sq_off.ring_entries, not over the requested count
+    stores = [bb for bb, t in sc.cfg.calls(lambda t: (t.get("callee") or "").endswith("Atomic::<u32>::store")) if sc.cfg.in_cycle(bb)]
+    ck.ob("C18.1", "setup|anchor|index-array-store", len(stores) == 1, fn=su["path"], detail=f"atomic stores inside a loop of set-up: {len(stores)}")
+    for bb in stores:
+        a = sc.args(bb)
+        ranges = [z for z in walk_deep(a[1], sc.prov, limit=200) if z[0] == "agg" and str(z[1]).endswith("ops::range::Range") and len(z[3]) == 2]
+        ok = False
+        why = "no range found for the stored index"
+        for rg in ranges:
+            lo, hi = rg[3]
+            from_kernel = mentions(hi, sc.prov, lambda z: z[0] == "call" and (z[1] or "").endswith("value_at_offset") and len(z[2]) > 1 and
+                                   mentions(z[2][1], sc.prov, lambda w: w[0] == "field" and w[2] == "ring_entries" and mentions(w[1], sc.prov, lambda v: v[0] == "field" and v[2] == "sq_off")))
+            requested = mentions(hi, sc.prov, lambda z: z[0] == "param") and not from_kernel
+            ok = fold(lo) == 0 and from_kernel and not requested
+            why = f"the loop runs over {show(lo)}..{show(hi)}"
+        identity = canon(strip_casts(a[1])) == canon(strip_casts([z for z in walk_deep(a[0], sc.prov, limit=200) if z[0] == "call" and (z[1] or "").endswith("::add")][0][2][1])) if any(z[0] == "call" and (z[1] or "").endswith("::add") for z in walk_deep(a[0], sc.prov, limit=200)) else False
+        ck.ob("C18.1", "setup|index-array-covers-the-kernels-ring", ok, fn=su["path"], site=sc.site(bb),
+              detail=f"{why}; it must cover 0..(ring_entries read from the mapped submission ring): the kernel rounds the requested size up, slots beyond the requested count would keep index 0 (their operations never run, entry 0 runs twice)")
+        ck.ob("C18.1", "setup|index-array-is-identity", identity, fn=su["path"], site=sc.site(bb), detail="slot i must map to entry i (sq_array[i] = i)")
     # ---- drop side ----------------------------------------------------------------------------------------------------------
     unmaps = [(bb, dc.args(bb)) for bb, t in dc.cfg.calls(lambda t: t.get("callee") == MUNMAP)]
     ck.ob("C18.1", "drop|three-munmaps", len(unmaps) == 3, fn=d["path"], detail=f"munmap sites in Drop: {len(unmaps)}")
